@@ -3,7 +3,8 @@ loop stop -> sockets closed) on the core model, the pid file (harness/props/c08_
 unix-socket files (harness/props/c08_sockets.py, the sockets layer of C07 with reloadconfig and quit)."""
 from harness.corecheck import make
 from harness.props import c08_pidfile, c08_sockets
-PARTS = [make("C08", ["CircusProofs/Props/C08.lean"],
+PARTS = [make("C08", ["CircusProofs/Props/C08.lean", "CircusProofs/Props/C08Run.lean"],
               ["CircusProofs/Core/Pres.lean", "CircusProofs/Core/KStep.lean", "CircusProofs/Core/Generic.lean", "CircusProofs/Core/SlotFree.lean", "CircusProofs/Core/NoClose.lean", "CircusProofs/Core/ArbInv.lean", "CircusProofs/Core/Init.lean",
-               "CircusProofs/Props/C02.lean", "CircusProofs/Props/C06.lean"]),
+               "CircusProofs/Props/C02.lean", "CircusProofs/Props/C06.lean", "CircusProofs/Core/Conv.lean",
+               "CircusProofs/Core/StopRun.lean", "CircusProofs/Core/StopRunG.lean"]),
          c08_pidfile, c08_sockets]
